@@ -40,6 +40,9 @@ def mk(rng, tier):
         shape = rand_shape(rng, 2, 3)
         case['x'] = rand_coeffs(rng, shape, -2, 2)
         case['V'] = rand_coeffs(rng, shape + (P, D), -2, 2)
+        case['xkind'] = rng.choice(['float', 'float', 'int-array', 'int-list', 'float32'])
+        if case['xkind'] != 'float':
+            case['x'] = np.round(case['x'] * 2)        # integer-valued base point, non-integer directions
     elif kind == 'utpm2dirs':
         case['x'] = rand_coeffs(rng, (D, P) + rand_shape(rng, 2, 3), -2, 2)
     elif kind == 'as_utpm':
@@ -132,7 +135,12 @@ def run_one(ctx, case):
         return None
     if k == 'basedirs':
         x, V = np.array(case['x']), np.array(case['V'])
-        u = utils.base_and_dirs2utpm(x, V)
+        xk = case.get('xkind', 'float')
+        xin = x if xk == 'float' else (x.astype(int) if xk == 'int-array' else (x.astype(int).tolist() if xk == 'int-list' else x.astype(np.float32)))
+        try:
+            u = utils.base_and_dirs2utpm(xin, V)
+        except Exception as ex:
+            return 'basedirs-exception: base_and_dirs2utpm raised %s for a base point given as %s' % (type(ex).__name__, xk)
         m = ctx.model.arrs({'op': 'conv', 'what': 'base_dirs2utpm', 'x': enc_arr(x), 'V': enc_arr(V)})[0]
         if not np.array_equal(u.data, m):
             return 'basedirs-mismatch: base_and_dirs2utpm differs from the model'
